@@ -343,6 +343,9 @@ func gen(g *fw.Gen) {
 	}
 	for n := g.ShareOf(1500, 120000); n > 0; n-- {
 		l := g.Rng.Intn(301)
+		if g.Rng.Intn(10) == 0 {
+			l = 301 + g.Rng.Intn(5000)
+		}
 		nn := float64(l + 8)
 		var t float64
 		switch g.Rng.Intn(4) {
@@ -365,6 +368,10 @@ func gen(g *fw.Gen) {
 		g.Emit("shared", fw.Pack(fw.U64(g.Rng.Uint64())))
 	}
 	for n := g.ShareOf(40000, 2000000); n > 0; n-- {
+		if g.Rng.Intn(8) == 0 {
+			g.Emit("score", fw.Pack(g.Bytes(8+g.Rng.Intn(6000))))
+			continue
+		}
 		g.Emit("score", fw.Pack(g.Bytes(8+g.Rng.Intn(393))))
 	}
 	for n := g.ShareOf(40000, 2000000); n > 0; n-- {
